@@ -277,7 +277,7 @@ static inline void __verif_trap(void)
 		__typeof__(p) _p = (p); \
 		ov = __VERIF_LOADVAL(_p); \
 		do __VERIF_LOOP_ASSIGNS(ov, nv, _result, *_p, VERIF_GHOST __VERIF_RMW_EXTRA) \
-		__CPROVER_loop_invariant(__VERIF_RELY(_p, ov) && __VERIF_LOG_UNCHANGED) { \
+		__CPROVER_loop_invariant(!_result && __VERIF_LOG_UNCHANGED) { \
 			ov = __VERIF_LOADVAL(_p); /* value seen by the previous failed CAS: arbitrary */ \
 			__VA_ARGS__; \
 			{ _os_atomic_basetypeof(_p) __vcur = __VERIF_LOADVAL(_p); \
@@ -311,8 +311,11 @@ static inline void __verif_trap(void)
 #define VERIF_ASSERT(name, ...) __CPROVER_assert((__VA_ARGS__), "VA:" #name)
 /* reachability canary: MUST fail (a harness whose end is unreachable proves nothing) */
 #define VERIF_CANARY() __CPROVER_assert(0, "CANARY")
+/* premise reachability: MUST fail, i.e. the condition is satisfiable at this point */
+#define VERIF_REACH(name, ...) __CPROVER_assert(!(__VA_ARGS__), "REACH:" #name)
 #else
 #define VERIF_CANARY() ((void)0)
+#define VERIF_REACH(name, ...) ((void)0)
 #define REQ(...)
 #define ENS(name, ...) if (!(__VA_ARGS__)) __verif_native_fail("postcondition", #name);
 #define ASG(...)
